@@ -1,9 +1,9 @@
 package main
 
 import (
-	"strings"
 	"fmt"
 	"sort"
+	"strings"
 
 	"github.com/go-gts/gts"
 )
